@@ -1,0 +1,13 @@
+//go:build verif
+// +build verif
+
+package api
+
+// Accessor used by the verification harness (/verif, property C16). Add-only; compiled
+// only with the build tag "verif". It exposes existing behaviour, it does not change it.
+
+// VerifExtractAddressInfos calls the unexported extractAddressInfos unchanged.
+func VerifExtractAddressInfos(pkScript []byte) (class byte, recipient, staking, binding string, reqSigs int, err error) {
+	c, r, s, b, n, e := extractAddressInfos(pkScript)
+	return byte(c), r, s, b, n, e
+}
